@@ -1054,20 +1054,26 @@ class Exec:
         # path, or as the last path segments) is inlined -- so refactorings that introduce helper
         # functions stay encodable
         callee = re.sub(r"::<[^<>]*(?:<[^<>]*(?:<[^<>]*>[^<>]*)*>[^<>]*)*>", "", callee)   # drop generic arguments
-        cands = [f for n, fs in self.mir.fns.items() for f in fs
-                 if n == callee or n.endswith("::" + callee) or (("::" in callee) and n.endswith("::" + callee.split("::")[-1])
-                                                                  and callee.split("::")[0] in ("Self", fn.name.split("::")[0]))]
-        if not cands:
-            last = callee.split("::")[-1]
-            cands = [f for n, fs in self.mir.fns.items() for f in fs if n.split("::")[-1] == last and re.fullmatch(r"[\w:]+", callee)]
-        if "::" in callee:
-            # `Type::method`: the candidate must belong to that type (receiver type or module name) --
-            # otherwise `Vec::len` would be taken for some crate type's `len`
-            tyname = callee.split("::")[-2]
-            cands = [f for f in cands if (f.args and re.search(r"\b%s\b" % re.escape(tyname), f.args[0][1]))
-                     or f.name.split("::")[0] == tyname.lower() or (f.ret and re.search(r"\b%s\b" % re.escape(tyname), f.ret) and not f.args)]
-        if callee.split("::")[0] in ("core", "std", "alloc"):
-            cands = []
+        ckey = (callee, fn.name.split("::")[0])
+        cache = self.mir.__dict__.setdefault("_cand_cache", {})
+        if ckey in cache:
+            cands = list(cache[ckey])
+        else:
+            cands = [f for n, fs in self.mir.fns.items() for f in fs
+                     if n == callee or n.endswith("::" + callee) or (("::" in callee) and n.endswith("::" + callee.split("::")[-1])
+                                                                      and callee.split("::")[0] in ("Self", fn.name.split("::")[0]))]
+            if not cands:
+                last = callee.split("::")[-1]
+                cands = [f for n, fs in self.mir.fns.items() for f in fs if n.split("::")[-1] == last and re.fullmatch(r"[\w:]+", callee)]
+            if "::" in callee:
+                # `Type::method`: the candidate must belong to that type (receiver type or module name) --
+                # otherwise `Vec::len` would be taken for some crate type's `len`
+                tyname = callee.split("::")[-2]
+                cands = [f for f in cands if (f.args and re.search(r"\b%s\b" % re.escape(tyname), f.args[0][1]))
+                         or f.name.split("::")[0] == tyname.lower() or (f.ret and re.search(r"\b%s\b" % re.escape(tyname), f.ret) and not f.args)]
+            if callee.split("::")[0] in ("core", "std", "alloc"):
+                cands = []
+            cache[ckey] = list(cands)
         if any(re.search(rx, callee) for rx in self.no_inline):
             cands = []
         bodies = set(f.text for f in cands)
